@@ -527,6 +527,28 @@ def install(interp):
     from . import ndarr as _nd
 
     H["np.eye"] = lambda it, a, k: _nd._x_eye(a, k)
+
+    def tree_leaves(it, a, k):
+        """leaves in jax's canonical order: dict values by sorted key, sequences in order, None dropped"""
+        out = []
+
+        def rec(x):
+            if x is None:
+                return
+            if isinstance(x, dict):
+                for key in sorted(x):
+                    rec(x[key])
+            elif isinstance(x, (list, tuple)):
+                for y in x:
+                    rec(y)
+            else:
+                out.append(x)
+
+        rec(a[0])
+        return out
+
+    H["jax.tree_util.tree_leaves"] = tree_leaves
+    H["jax.tree.leaves"] = tree_leaves
     H["math.isclose"] = _isclose
     H["np.isclose"] = _isclose
     for n in ("exp", "sin", "cos", "tanh", "sinh", "cosh", "sqrt", "abs", "square", "sign", "floor", "ceil", "round", "expm1", "log", "log1p", "arctan", "tan", "rint", "arcsin", "arccos", "log10", "log2"):
